@@ -1,7 +1,8 @@
 import ParolModel.Model.Tokens
 /-! The read-ahead of `TokenStream` only buffers: whatever `k` and the access schedule, the tokens
 handed to the parser are the scanner matches with the gaps filled, up to the first EOI (C13). -/
-namespace ParolModel
+namespace ParolModel.TokStream
+open ParolModel
 
 def gapTok (a b : Nat) : LTok := ⟨invalidTy, a, b, false⟩
 def addTail (le : Nat) (t : LTok) : List LTok := if le < t.start then [gapTok le t.start, t] else [t]
@@ -454,4 +455,4 @@ theorem stream_indep (ms : List LTok) (len k k' : Nat) (peek peek' : Bool) (hms 
   obtain ⟨f', hf'⟩ := stream_delivers ms len k' peek' hms
   exact ⟨f, f', by rw [hf, hf'], by rw [hf]; rfl⟩
 
-end ParolModel
+end ParolModel.TokStream
